@@ -7,15 +7,15 @@ CONSTANTS
   PurgeIds <- C_PurgeIds
   CommitIds <- C_CommitIds
   Users <- C_Users
-  Cfgs <- C_CfgsRot
-  MaxCalls = 3
+  Cfgs <- C_CfgsCrash
+  MaxCalls = 2
   MaxFlush = 1
-  MaxReopen = 1
-  MaxCrash = 0
+  MaxReopen = 0
+  MaxCrash = 1
   MaxFaults = 0
   Concurrent = TRUE
   WithRejects = FALSE
-  ExportOneIn = 1
+  ExportOneIn = 20
 INVARIANTS NoViolation CacheCounterExact ChunksAbut DurableIsPrefix Export
 VIEW View
 ALIAS Alias
